@@ -1225,6 +1225,14 @@ func doWalk(cs *connState, ref *fidRef, names []string, getattr bool) (qids []QI
 	if len(names) == 0 {
 		var sf File // Temporary.
 		if err := ref.maybeParent().safelyRead(func() (err error) {
+			// The clone is a read-class call on ref's own path, not only
+			// on its parent's: exclude write-class calls there as well
+			// (parent before child; the root is its own parent).
+			if !ref.hasParent() {
+				ref.pathNode.opMu.RLock()
+				defer ref.pathNode.opMu.RUnlock()
+			}
+
 			// Clone the single element.
 			qids, sf, valid, attr, err = walkOne(nil, ref.file, nil, getattr)
 			if err != nil {
